@@ -336,6 +336,10 @@ func init() {
 				nDefs := 1 + t.W(3)
 				for i := 0; i < nDefs; i++ {
 					name := fmt.Sprintf("uf%d", i+1)
+					if i == 0 && t.WBool(1, 5) {
+						// a user function may carry the name of a builtin (one the generated bodies never call): it takes its place
+						name = []string{"hf", "tab", "basename", "percent", "repeat"}[t.W(5)]
+					}
 					body := bg.node(2)
 					if body.Kind == xLit && body.S == "" {
 						body = &xNode{Kind: xGroup, N: 0}
